@@ -141,6 +141,15 @@ def main():
                                            "witness_class": ob.get("witness_class", "model"),
                                            "message": ob.get("message", ""), "model": ob.get("model"),
                                            "replay_input": ob.get("replay_input"), "solver_output": ob.get("solver_output", "")})
+                    elif ob["status"] != "discharged" and ob.get("replay_input") is not None and ob.get("candidate_model"):
+                        # the solvers could not decide the obligation; a model of the quantifier-free part of the verification condition is a candidate
+                        # input.  It is replayed on the real code like the counter-model of a broken auxiliary obligation: only a property-level
+                        # failure of the REAL code on it is reported, otherwise the obligation stays undecided (layer B decides).
+                        violations.append({"layer": "P", "site": fn["name"], "clause": ob["name"], "aux": True, "candidate": True,
+                                           "witness_class": ob.get("witness_class", "model"),
+                                           "message": "obligation %s undecided by the solvers; candidate input from the quantifier-free part of the verification condition" % ob["name"],
+                                           "model": ob.get("candidate_model"), "replay_input": ob.get("replay_input"), "solver_output": ob.get("solver_output", ""),
+                                           "undecided_reason": ob.get("reason", ob["status"])})
                     elif ob["status"] != "discharged":
                         undecided.append({"obligation": ob["name"], "site": fn["name"], "reason": ob.get("reason", ob["status"])})
             for lm in P.get("lemmas", []):
@@ -185,7 +194,9 @@ def main():
                               "reason": "refuted, but the replay of the counter-model on the real code satisfies the property (no violation shown; layer B decides): "
                                         + (v.get("solver_output") or "")[:160].replace("\n", " ")})
             continue
-        if v.get("aux") and not v.get("reproduced"):
+        if v.get("candidate") and not v.get("reproduced"):
+            undecided.append({"obligation": v["clause"], "site": v["site"], "reason": v.get("undecided_reason", "unknown")})
+        elif v.get("aux") and not v.get("reproduced"):
             undecided.append({"obligation": v["clause"], "site": v["site"],
                               "reason": "auxiliary obligation refuted but the counter-model does not violate the property on the real code "
                                         "(proof broken, layer B decides): " + (v.get("solver_output") or "")[:160].replace("\n", " ")})
